@@ -10,7 +10,8 @@ Line protocol of the checked-index models of the cmap directory group (property 
   `err:<class>` | `panic`
 * `tmcmapdir.get bytes=<hex> key=p.e.l` → `err:decode` | `err:<nosuch|macenc|unsupported|sub>` |
   `ok:f0:0:255` | `ok:m16:<low>:<high>` | `ok:ext<format>` | `panic`
-* `tmcmapdir.f0 bytes=<hex>` → `ok:<hex of the 256 bytes>` | `err` | `panic`
+* `tmcmapdir.f0 bytes=<hex> [mac=0]` → `ok:<hex of the 256 bytes>` | `err` | `panic`;
+  `tmcmapdir.f0 bytes=<hex> mac=1` (Macintosh branch, bytes start with 0000) → `ok:<code:gid,…>` | `err` | `panic`
 * `tmcmapdir.f6 bytes=<hex> mac=<0|1>` → `ok:<code:gid,…>` | `err` | `panic`
 * `tmcmapdir.lookup0 data=<hex> r=<int>` → glyph (0 for negative runes and runes > 255); `tmcmapdir.lookup16 map=<c:g,…> r=<int>`
 * `tmcmapdir.formats` → the keys of `decoders`, ascending
@@ -92,6 +93,14 @@ def handle (op : String) (fs : List (String × String)) : String :=
   else if op == "tmcmapdir.f0" then
     match (getField fs "bytes").bind fromHex with
     | some b =>
+      if (getField fs "mac") == some "1" then
+        -- driven through Table.Get with the key (1,0,0): the bytes must carry format 0
+        if b.take 2 != [0, 0] then "bad-case" else
+        match decodeFormat0C2r macRoman b with
+        | .ok (w, _) => "ok:" ++ showPairs (canonWrites w)
+        | .err _ => "err"
+        | .panic _ => "panic"
+      else
       match decodeFormat0 b with
       | .ok (d, _) => "ok:" ++ toHex d
       | .err _ => "err"
